@@ -109,7 +109,8 @@ pub fn check_point(m: &GenModel, sol: &Sol, x: &[f64], out: &mut Vec<Finding>) {
             ));
         }
     }
-    let obj = m.objective_at(x);
+    let builder = sol.handle_values.is_some();
+    let obj = m.objective_at(x) - m.offset + m.offset_as_seen_by(builder);
     if !((sol.value - obj).abs() <= TOL * obj.abs().max(1.0)) {
         out.push(f(
             "objective-mismatch",
@@ -210,6 +211,19 @@ pub fn judge_c04(
 ) -> Vec<Finding> {
     let mut out = Vec::new();
     if let Outcome::Sol(sol) = &res.outcome {
+        if runaway(sol) {
+            // an iterate of magnitude 1e6+ on data with |coefficients| <= 15 is not a
+            // candidate solution at all; one class instead of a row-by-row post-mortem
+            out.push(f(
+                "runaway-solution",
+                format!(
+                    "returned a point of magnitude {:e} (objective {}) as a solution",
+                    sol.assignment.iter().map(|(_, v)| v.abs()).fold(0.0, f64::max),
+                    sol.value
+                ),
+            ));
+            return out;
+        }
         if let Some(x) = values_by_var(m, sol, &mut out) {
             check_point(m, sol, &x, &mut out);
             check_row_activities(reference_rows, sol, &x, &mut out);
@@ -224,14 +238,13 @@ pub fn interrupted(res: &RunResult) -> bool {
 
 /// C05: verdicts and optimal values.
 pub fn judge_c05(m: &GenModel, truth: Verdict, cfg: &RunCfg, res: &RunResult) -> Vec<Finding> {
-    let _ = m;
     let mut out = Vec::new();
     let was_interrupted = interrupted(res);
     match &res.outcome {
         Outcome::Sol(sol) => match sol.label {
             Label::Optimal => match truth {
                 Verdict::Optimal(opt) => {
-                    let opt = opt.to_f64();
+                    let opt = opt.to_f64() - m.offset + m.offset_as_seen_by(cfg.entry.is_builder());
                     if !within_gap(sol.value, opt, cfg.gap.allowed()) {
                         out.push(f(
                             "wrong-optimum",
@@ -358,7 +371,7 @@ pub fn judge_c15(m: &GenModel, truth: Verdict, cfg: &RunCfg, res: &RunResult) ->
             match sol.label {
                 Label::Optimal => match truth {
                     Verdict::Optimal(opt) => {
-                        let opt = opt.to_f64();
+                        let opt = opt.to_f64() - m.offset + m.offset_as_seen_by(cfg.entry.is_builder());
                         if !within_gap(sol.value, opt, cfg.gap.allowed()) {
                             out.push(f(
                                 "optimal-label-outside-gap",
